@@ -21,7 +21,7 @@ def eng(name, quick, thorough, **kw):
 LOOPS = ["QuorumCall", "AsyncCall", "handleAsyncCall"]
 SKELS = {
     "C01": LOOPS + ["AsyncGet", "AsyncDone", "tmplfile_quorumcall", "tmplfile_async", "tmplfile_datatypes", "tmplfile_qspec"],
-    "C02": LOOPS + ["AsyncGet", "AsyncDone", "QCEError", "nodeErrorError"],
+    "C02": LOOPS + ["AsyncGet", "AsyncDone", "QCEError", "nodeErrorError", "incompleteCause"],
     "C03": ["ch_enqueue", "ch_sender", "ch_sendMsg", "ch_newChannel", "srv_NodeStream", "QuorumCall", "AsyncCall", "CorrectableCall", "Multicast", "Unicast", "RPCCall", "tmplfile_server"],
     "C04": ["srv_NodeStream", "srv_Release", "srv_SendMessage", "tmplfile_server"],
     "C05": ["ch_enqueue", "ch_routeResponse", "ch_cancelPendingMsgs", "ch_deleteRouter", "ch_receiver", "mgr_RawManager_getMsgID", "cfg_RawConfiguration_getMsgID",
@@ -29,7 +29,7 @@ SKELS = {
     "C06": ["Multicast", "Unicast", "getCallOptions", "WithNoSendWaiting", "ch_sendMsg", "ch_waitForSend", "QuorumCall", "AsyncCall", "CorrectableCall",
             "tmplfile_multicast", "tmplfile_unicast"],
     "C07": ["ch_sender", "ch_receiver", "ch_cancelPendingMsgs", "ch_connect", "ch_routeResponse", "QuorumCall", "handleAsyncCall", "QCEError", "nodeErrorError", "WrapMessage"],
-    "C08": ["ch_enqueue", "RPCCall", "QuorumCall", "handleAsyncCall", "handleCorrectableCall", "Multicast", "Unicast", "ch_sendMsg", "ch_reconnect"],
+    "C08": ["ch_enqueue", "RPCCall", "QuorumCall", "handleAsyncCall", "handleCorrectableCall", "Multicast", "Unicast", "ch_sendMsg", "ch_reconnect", "incompleteCause"],
     "C09": ["ch_newNodeStream", "ch_enqueue", "ch_routeResponse", "ch_cancelPendingMsgs", "ch_deleteRouter", "ch_sendMsg", "ch_sender", "ch_receiver", "ch_connect", "ch_reconnect",
             "ch_isConnected", "handleCorrectableCall"],
     "C10": ["ch_connect", "ch_reconnect", "ch_newNodeStream", "ch_receiver", "ch_sender", "ch_newChannel", "node_RawNode_newContext", "node_RawNode_dial", "node_RawNode_connect", "srv_NodeStream"],
@@ -42,6 +42,48 @@ TECH = "Lean 4 theorems over a hand-written executable model; tie = decision exp
 NOT_APPLICABLE = {}
 
 PROPS = {
+    "C08": dict(
+        level="proof", engines=[eng("ctx", 250, 5000, timeout=900)], labels=["C08"],
+        text="Partial. Theorems (Props/C08.lean): a call waits at three kinds of places only; the reply loop returns the context's error as soon as the context end is consumed (ctx_returns_at_once, for every "
+             "parameter value, quorum function and history); the router lock a caller needs is unavailable for good only in the back-pressure wedge of C09, which needs a server-stream call that ended early. "
+             "Tie: loop parameters (Tie/C02), connection decisions (Tie/C09), digests of enqueue (whose select contains the request's context: the repair of defect D2), the reply loops, the one-way waits, sendMsg and "
+             "reconnect; engine ctx: call type x node behaviour {healthy, down, silent, peer not reading} x background traffic x instant of the context end, return within 2 s and errors.Is(err, ctx.Err()).",
+        note="Partial: wall-clock delay, scheduler fairness and transport time-outs are outside the model; the 2 s bound is a test. The errors.Is clause is decided by the model (Props/C02 exhaustion_outcome: the exhaustion branch reports the context's error once the context has ended; repaired by fix ba53414).",
+    ),
+    "C09": dict(
+        level="proof", engines=[eng("wedge", 40, 1500, timeout=1500)], labels=["C09"],
+        text="Partial. Theorems (Props/C09.lean) over the LTS ConnMgr (sender and receiver program counters, streamMut with writer preference, streamBroken, responseMut, stream liveness, queue, Close; 39 labels): "
+             "a 13-clause invariant is inductive; wedge_shapes: in every reachable state with an open manager in which something is owed and neither the library nor a well-behaved environment can move, the state has "
+             "one of exactly two shapes (stale-broken, stream back-pressure) — a complete list; both shapes are stuck and both are reachable (explicit traces checked by the kernel): the two known findings. "
+             "Tie: isConnected and the give-up test regenerated from channel.go; digests of the twelve functions the LTS was written from; engine wedge: workload phases with cancellations, slow quorum functions and handlers, "
+             "restarts, then a probe RPC per node; every hang is classified by goroutine signature; two deliberate replays reproduce the known findings.",
+        note="Partial: relative to the model's list of shapes; real scheduling is not modelled; a new way to get stuck that is not in the LTS is caught by the digests and by an unknown signature in engine wedge.",
+    ),
+    "C10": dict(
+        level="proof", engines=[eng("reconn", 40, 800, timeout=1500)], labels=["C10"],
+        text="Partial. Theorems (Props/C10.lean): connect() is retried for every request popped while the node is not connected; with a reachable peer a node stays unusable only in the two wedges of C09; "
+             "the no-timer clause is refuted on the model (timer_wait_reachable: a reply on a live stream while the receiver sleeps in its back-off — the known finding) and holds outside that state (no_timer_wait_partial). "
+             "Tie: connection decisions regenerated; digests of connect / reconnect / newNodeStream / receiver / sender / newChannel / newContext / dial / NodeStream; engine reconn: nodes down at creation, stop/start rounds, "
+             "back-off base 1.5 s vs 30 ms, lag between 'handler replied' and 'call returned', general and per-node metadata and exactly one connect callback on every accepted stream.",
+        note="Partial: timers are abstract (a timer wait is recognised at runtime by a lag above 1 s with a 1.5 s base delay).",
+    ),
+    "C12": dict(
+        level="proof", engines=[eng("close", 20, 400, timeout=1500)], labels=["C12"],
+        text="Partial. Theorems (Props/C12.lean): after Close, a state in which nothing can move has both goroutines exited (unless the receiver is blocked in the back-pressure wedge); no stream is alive and no request is "
+             "accepted after Close; the exiting sender leaves no request in the queue. Tie: send-queue capacity regenerated; digests of Close / closeNodeConns / RawNode.close / connect / enqueue / sender / receiver / reconnect / "
+             "Multicast / Unicast; engine close: send buffer {0,1,8} x node states x in-flight calls of all types x Close once / twice / concurrently: every in-flight call returns within 3 s, calls after Close fail fast "
+             "without panic, client-side library goroutines are gone.",
+        note="Partial: goroutine exit and socket closure are observed at runtime, not proved.",
+    ),
+    "C15": dict(
+        level="proof", engines=[], labels=["C15"],
+        text="Partial. Theorem (Props/C15.lean) guarded_race_free: in any trace that respects the semantics of sync.Mutex / sync.RWMutex, if every write to x holds lock l exclusively and every read holds it exclusively or "
+             "shared, then any two conflicting accesses to x are ordered by happens-before (program order + Unlock->Lock/RLock + RUnlock->Lock edges): no data race on x; without the lock the same writes are unordered. "
+             "Tie (Tie/C15.lean): the access table of all selectors on the tracked fields of channel / RawManager / RawNode / Correctable with the locks held at each (lock-set walk by gx, regenerated on every run) "
+             "is proved row by row to obey the field's policy; the atomic flags go through sync/atomic only. Behavioural: thirteen engines built with -race; every report with a library frame is a violation.",
+        note="Partial: which accesses the program makes and which locks it holds is a syntactic, intra-procedural extraction by gx (trusted); atomics, channels and `go` edges are covered only by the race detector runs.",
+        technique="Lean 4 theorem that the lock discipline implies happens-before ordering; tie = lock-set access table regenerated from the source and checked against the policy by the kernel; Go race detector on the behavioural engines",
+    ),
     "C16": dict(
         level="proof", engines=[], labels=["C16"],
         text="Theorems (Props/C16.lean) over the decision model Gen (validateOptions, chkFns, template choices), each proved for all 1 024 option combinations: an accepted method gets exactly one client stub; "
@@ -169,11 +211,12 @@ PROPS = {
     "C02": dict(
         level="proof", engines=[eng("qc", 4000, 80000)], labels=["C02"],
         text="Theorems (Props/C02.lean): the reply loop computes, for every parameter value, quorum function, number of targeted nodes and arrival history, "
-             "the verdict of the shortest prefix that has one (run_eq_spec); under the parameters proved for the tree's own expressions (Tie/C02.lean: exhaustion test "
-             "is errs+replies = expected and is evaluated before the first select) Incomplete adds up, zero targets terminate, the future completes by the same rule. "
-             "Tie: exhaustion expressions and their position regenerated from quorumcall.go/async.go on every run; errors.Is decision regenerated from errors.go; "
+             "the verdict of the shortest prefix that has one (run_eq_spec); under the parameters proved for the tree's own expressions (Tie/C02.lean: the exhaustion test "
+             "is errs+replies = expected, is evaluated before the first select, and its branch reports the context's error once the context has ended) Incomplete adds up, zero targets terminate at once, "
+             "a context that has ended when every node has answered yields the context's error (exhaustion_outcome), the future completes by the same rule. "
+             "Tie: exhaustion expressions, their position and the cause they report regenerated from quorumcall.go/async.go on every run; errors.Is decision regenerated from errors.go; "
              "exact differential run of all 13 zorums quorum-call variants with gated arrival orders against the Lean driver.",
         note="Trusted: Lean kernel; gx's translation of the two exhaustion tests, their position and QuorumCallError.Is; the hand-written loop model (tied by digest of the loop functions and the exact T3 run); "
-             "gating harness. Cancellation is placed only at the start or right after a reply (its position relative to error arrivals is not observable without instrumentation).",
+             "gating harness. The harness ends a context only before the call or after the arrival before it has been consumed (Driver/QC.lean runCase states this schedule); after a context has ended, which of the locally produced answers the loop still consumes is not constrained, so the error list of a context outcome is compared on the nodes whose failure was delivered before the cancellation.",
     ),
 }
